@@ -223,7 +223,11 @@ func firstDiff(x, y *canonNode, parent string) (sig, detail string, differ bool)
 	}
 	if x.kind == "ParenExpr" && y.kind != "ParenExpr" {
 		// the parentheses are gone (what is inside does not matter for the cause)
-		return where + ":ParenExpr-dropped", fmt.Sprintf("%s became %s", clip(x.String(), 200), clip(y.String(), 200)), true
+		if parent != "ParenExpr" {
+			// printer stripParens (controlClause, switch tag, range operand, parameter / result types): one cause
+			return "ParenExpr-dropped:stripParens", fmt.Sprintf("at %s: %s became %s", where, clip(x.String(), 200), clip(y.String(), 200)), true
+		}
+		return "ParenExpr-dropped:double-parentheses", fmt.Sprintf("%s became %s", clip(x.String(), 200), clip(y.String(), 200)), true
 	}
 	if x.kind != y.kind {
 		return fmt.Sprintf("%s:%s->%s", where, x.head(), y.head()), fmt.Sprintf("%s became %s", clip(x.String(), 200), clip(y.String(), 200)), true
